@@ -14,8 +14,12 @@ CODE = {"A": 0, "C": 1, "T": 2, "G": 3}
 
 
 def ska(args, cwd, timeout=600):
-    p = subprocess.run([core.SKA] + args, cwd=cwd, stdout=subprocess.PIPE, stderr=subprocess.PIPE,
-                       timeout=timeout, env=core.ENV)
+    try:
+        p = subprocess.run([core.SKA] + args, cwd=cwd, stdout=subprocess.PIPE, stderr=subprocess.PIPE,
+                           timeout=timeout, env=core.ENV)
+    except subprocess.TimeoutExpired as e:
+        # a command that does not come back is a failed command (exit status -9), not a crash of the check
+        return -9, (e.stdout or b"").decode("utf-8", "replace"), f"TIMEOUT after {timeout} s: ska {' '.join(args)[:300]}"
     return p.returncode, p.stdout.decode("utf-8", "replace"), p.stderr.decode("utf-8", "replace")
 
 
@@ -62,6 +66,27 @@ def write_fasta(path, recs, wrap=None, names=None, gz=False, crlf=False, header_
     else:
         with open(path, "wb") as f:
             f.write(data)
+
+
+def write_ref_variant(rnd, d, base, name="g"):
+    """a single-sequence reference in one of the forms a user has lying around: one line, wrapped,
+    CRLF, gzip, multi-member gzip (what bgzip or `cat a.gz b.gz` produce); returns the path"""
+    form = rnd.choice(["plain", "plain", "wrap", "crlf", "gz", "mgz", "mgz"])
+    lines = [">" + name] + ([base] if form == "plain" else [base[j:j + 60] for j in range(0, len(base), 60)])
+    eol = "\r\n" if form == "crlf" else "\n"
+    if form in ("gz", "mgz"):
+        path = os.path.join(d, "ref.fa.gz")
+        if form == "gz" or len(lines) < 3:
+            data = gzip.compress((eol.join(lines) + eol).encode())
+        else:
+            cut = rnd.randint(2, len(lines) - 1)
+            data = gzip.compress((eol.join(lines[:cut]) + eol).encode()) + gzip.compress((eol.join(lines[cut:]) + eol).encode())
+    else:
+        path = os.path.join(d, "ref.fa")
+        data = (eol.join(lines) + eol).encode()
+    with open(path, "wb") as f:
+        f.write(data)
+    return path
 
 
 def fresh_dir(ctx, name):
@@ -470,6 +495,16 @@ def c11_cli(ctx, broken):
             f = os.path.join(d, f"s{si}.fa")
             write_fasta(f, ["".join(seqs[si])])
             files.append(f)
+        # the same samples cut into several records, for the build options that act per record
+        mfiles = []
+        for si in range(nsamp):
+            f = os.path.join(d, f"m{si}.fa")
+            sq = "".join(seqs[si])
+            npiece = max(1, min(6, len(sq) // (k + 8)))
+            cuts = [len(sq) * j // npiece + (rnd.randint(-3, 3) if 0 < j else 0) for j in range(1, npiece)]
+            write_fasta(f, [sq[a_:b_] for a_, b_ in zip([0] + cuts, cuts + [len(sq)])])
+            mfiles.append(f)
+        build_opts = ["--proportion-reads", rnd.choice(["0.5", "0.34", "0.25"])] + (["--single-strand"] if rnd.random() < 0.4 else [])
         reffile = os.path.join(d, "ref.fa")
         write_fasta(reffile, [base[:L // 2], base[L // 2:]], names=["c1", "c2"])
         loref = os.path.join(d, "loref.fa")   # ska lo wants a single-sequence reference
@@ -495,6 +530,15 @@ def c11_cli(ctx, broken):
                 code, out, err = run_ok(["nk", "--full-info", os.path.join(d, tag + ".skf")], d)
                 cur = {"build": nk_table(parse_nk(out))}
                 skf = os.path.join(d, tag + ".skf")
+                # build with options that are handed down to the per-sample builders (both the serial and the parallel route)
+                code, out, err = run_ok(["build", "-o", os.path.join(d, tag + "o"), "-k", str(k), "--threads", str(t)] + build_opts + mfiles, d)
+                evals += 1
+                if code != 0:
+                    # the selected records may hold no k-mer: then every thread count must refuse alike
+                    cur["build " + " ".join(build_opts)] = "refused:" + classify_stderr(err)
+                else:
+                    code, out, err = run_ok(["nk", "--full-info", os.path.join(d, tag + "o.skf")], d)
+                    cur["build " + " ".join(build_opts)] = nk_table(parse_nk(out))
                 for name, args in [
                     ("align_skf", ["align", skf, "--threads", str(t)]),
                     ("align_fa", ["align"] + files + ["--threads", str(t)]),
@@ -805,7 +849,8 @@ def c19_cli(ctx, broken):
     for fi in range(nfaults):
         data = bytearray(good)
         if fi % 3 == 0:
-            data = data[:rnd.randrange(len(good))]
+            # the empty file and the bare stream identifier first: prefixes that end the compressed stream cleanly
+            data = data[:{0: 0, 3: 10}.get(fi, rnd.randrange(len(good)))]
             what = f"truncate {len(data)}"
         else:
             pos = rnd.randrange(len(good))
@@ -1009,6 +1054,11 @@ def c20_cli(ctx, broken):
         w0 = rnd.choice([rnd.uniform(0.01, 0.99), rnd.uniform(0.5, 0.999), 10 ** rnd.uniform(-4, -0.01)])
         c = rnd.choice([rnd.uniform(1.0, 100.0), rnd.uniform(1.0, 3.0), rnd.uniform(15, 45)])
         n = rnd.randint(1, 120)
+        if rnd.random() < 0.15:
+            # long tables (multi-copy elements, small k on a large genome): rows whose two component
+            # terms differ by hundreds of log units, where a formula that is right on paper overflows
+            n = rnd.randint(200, 1400)
+            c = rnd.choice([c, rnd.uniform(100.0, 400.0)])
         mode = rnd.random()
         if mode < 0.4:
             counts = [rnd.randint(0, 5000) for _ in range(n)]
@@ -1203,6 +1253,14 @@ def c03_cli(ctx, broken):
         maxlen = {5: 14, 7: 40, 9: 120}.get(k, 300)
         ncontig = rnd.randint(1, 3)
         anc = [rand_genome(rnd, rnd.randint(k, max(k + 1, maxlen))) for _ in range(ncontig)]
+        if evals == 0:
+            # the first family of every run is large: more than 2048 (thorough: 4096) variable sites, so that
+            # anything done per block of rows or columns is exercised across several blocks
+            k = rnd.choice([21, 31, 33])
+            h = (k - 1) // 2
+            nsamp = rnd.randint(3, 4)
+            threads = rnd.choice([1, 2])
+            anc = [rand_genome(rnd, 110000 if thorough else 56000)]
         fam = [[list(c) for c in anc] for _ in range(nsamp)]
         sites = []
         for ci, c in enumerate(anc):
@@ -1596,14 +1654,14 @@ def c17_cli(ctx, broken):
             f = os.path.join(d, f"{snames[si]}.fa")
             write_fasta(f, [revcomp(s) if rnd.random() < 0.3 else s])
             files.append(f)
-        write_fasta(os.path.join(d, "ref.fa"), [base], names=["g"])
+        refpath = write_ref_variant(rnd, d, base)
         threads = rnd.choice([1, 2, 4, 8])
         code, out, err = ska(["build", "-o", os.path.join(d, "x"), "-k", str(k)] + files, d)
         # complete samples: any -m (incl. 0: "no missing data allowed") must give the same truth
         mval = rnd.choice(["0", "0.1", "0.25", "1"])
         # isolated SNPs are single bubbles: any path depth, also 0, must find them
         depth = rnd.choice(["0", "1", "4", "4"])
-        args = ["lo", os.path.join(d, "x.skf"), os.path.join(d, "o"), "--threads", str(threads), "-m", mval, "-d", depth] + (["-r", os.path.join(d, "ref.fa")] if use_ref else [])
+        args = ["lo", os.path.join(d, "x.skf"), os.path.join(d, "o"), "--threads", str(threads), "-m", mval, "-d", depth] + (["-r", refpath] if use_ref else [])
         code, out, err = ska(args, d)
         evals += 1
         if code != 0:
@@ -1886,7 +1944,8 @@ def hist_via_cli(ctx, line):
                 wo = 64 if ok_ <= 31 else 128
                 if ok_ == k:
                     wo = w
-                other = os.path.join(d, f"other{step}.skf")
+                # file names in and out of byte order relative to `cur.skf`: argument order, not path order, decides
+                other = os.path.join(d, f"{'abxz'[(blank_style + step) % 4]}other{step}.skf")
                 core.run_impl(ctx, [f"mkskf w={wo} k={ok_} rc={orc} table={f[1]} out={other}"], "mk")
                 pref, want = out_prefix(d, f"m{step}", blank_style + step)
                 code, out, err = ska(["merge", cur, other, "-o", pref], d)
@@ -1897,7 +1956,7 @@ def hist_via_cli(ctx, line):
             elif f[0] == "mergen":
                 others = []
                 for i, t in enumerate(f[1].split("&")):
-                    other = os.path.join(d, f"other{step}_{i}.skf")
+                    other = os.path.join(d, f"{'zxba'[(blank_style + step + i) % 4]}other{step}_{9 - i}.skf")
                     core.run_impl(ctx, [f"mkskf w={w} k={k} rc={kv['rc']} table={t} out={other}"], "mk")
                     others.append(other)
                 pref, want = out_prefix(d, f"m{step}", blank_style + step)
@@ -2114,6 +2173,36 @@ def make_map_cli(prop, nquick, nthorough):
             if not (core.res_eq(r, m) and (s == "-" or core.res_eq(r, s))):
                 return {"summary": {"evaluations": evals, "nontrivial": nontriv},
                         "violation": {"kind": "map-cli", "case": c, "cli": r[:3000], "model": m[:3000], "spec": s[:3000]}}
+        if prop in ("C04", "C05"):
+            # scale: a repeat-free reference of more than 2^16 contigs mapped onto itself must come back
+            # exactly (T04_self), as alignment and with an empty VCF: contig indices and offsets of any width
+            d = fresh_dir(ctx, "manyctg")
+            k = rnd.choice([31, 33])
+            nct = 65540 + rnd.randint(0, 80)
+            contigs = ["".join(rnd.choice("ACGT") for _ in range(rnd.randint(k + 3, k + 11))) for _ in range(nct)]
+            ref = os.path.join(d, "ref.fa")
+            with open(ref, "w") as f:
+                f.write("".join(f">c{i}\n{c}\n" for i, c in enumerate(contigs)))
+            code, out, err = ska(["build", "-o", os.path.join(d, "self"), "-k", str(k), ref], d)
+            code2, out2, err2 = ska(["map", ref, os.path.join(d, "self.skf")], d) if code == 0 else (code, "", err)
+            evals += 1
+            got = "".join(l for l in out2.splitlines() if not l.startswith(">"))
+            want = "".join(contigs)
+            if code2 != 0 or got != want:
+                bad = next((i for i in range(min(len(got), len(want))) if got[i] != want[i]), min(len(got), len(want)))
+                return {"summary": {"evaluations": evals, "nontrivial": nontriv},
+                        "violation": {"kind": "map-many-contigs", "what": "a repeat-free reference with more than 65536 contigs mapped onto itself is not reproduced",
+                                      "k": k, "contigs": nct, "exit": code2, "stderr": (err2 or "")[-300:], "first_difference_at": bad,
+                                      "got": got[max(0, bad - 40):bad + 40], "want": want[max(0, bad - 40):bad + 40], "seed": ctx.seed}}
+            code3, out3, err3 = ska(["map", ref, os.path.join(d, "self.skf"), "-f", "vcf"], d)
+            recs = [l for l in out3.splitlines() if l and not l.startswith("#")]
+            evals += 1
+            nontriv += 2
+            if code3 != 0 or recs:
+                return {"summary": {"evaluations": evals, "nontrivial": nontriv},
+                        "violation": {"kind": "map-many-contigs", "what": "the VCF of a reference mapped onto itself has records (or the command failed)",
+                                      "k": k, "contigs": nct, "exit": code3, "records": recs[:5], "seed": ctx.seed}}
+            flags["many-contigs-selfmap"] = nct
         return {"summary": {"evaluations": evals, "nontrivial": nontriv, "flag_combinations": flags,
                             "what": "the map cases through the ska binary (build or saved table, `ska map` as alignment and VCF with --ambig-mask / --repeat-mask, both integer widths through the lib.rs dispatch) vs model and specification"},
                 "samples": samples}
